@@ -21,6 +21,8 @@ def run(tier, t0):
     scope = [f for f in c.fns if f.path.startswith(W + 'eval_win_expr') or f.path.startswith(W + 'walk_with_stack_win') or f.path.startswith(W + 'win_frame_size')
              or f.path.startswith(W + 'clear_stack_win_caller_registers') or f.path.startswith(W + 'WinVal') or f.path.startswith(W + '<impl')
              or 'insert_win_stack_info' in f.path or f.path.startswith('breakpad_symbols::sym_file::parser::stack_win')]
+    from . import fpo
+    fpo.fpo_formulas(res, prog, 'C07.6')
     nontrivial = totality.run_panics(res, prog, scope, 'C07.1', floor_sites=20)
     ev = need_fn(res, c, W + 'eval_win_expr', 'C07.2')
     res.rule('C07.2', 0, floor=12, note='operator table on u32 (as C06.2) plus `=`, `.undef`, the predefined constants and the `@` search-start rule')
